@@ -3,8 +3,22 @@ from __future__ import annotations
 from classify_checks import *
 
 PID = "C08"
-THEOREMS = CLOSURE_THEOREMS
-IMPORTS = CLOSURE_IMPORTS
+THEOREMS = CLOSURE_THEOREMS + [
+    # soundness of every "is a member" verdict for ALL inputs, conditional on the executable guards of the guarded model
+    "PauLie.C08.C08_partial", "PauLie.C08.C08_dependent_sound", "PauLie.C08.C08_guarded_sound",
+    "PauLie.C08.C08_select_sound", "PauLie.C08.C08_isin_sound",
+    "PauLie.C08.C08_nonmember_cert", "PauLie.C08.C08_appended_not_member_partial",
+    "PauLie.C08.sepCert_sound", "PauLie.C08.zeroCert_sound", "PauLie.C08.qCert_sound", "PauLie.C08.clo_mask", "PauLie.C08.qform_xor",
+    "PauLie.C08.primPres_inv8", "PauLie.C08.isIn_eq", "PauLie.C08.selectDependents_eq'",
+    "PauLie.C02.C02_classify_partial", "PauLie.C02.C02_erasure"]
+IMPORTS = CLOSURE_IMPORTS + ["PauLieVerif.Properties.C08", "PauLieVerif.Properties.C02"]
+
+# guard report of the guarded model per query line (filled by the batch oracle, read by `tag` for the evidence histogram)
+GUARD = {}
+
+def guard_line(l):
+    t = l.split(" ")
+    return " ".join(["mguards", t[0], t[1], t[2] if len(t) > 2 else "-"])
 
 def qsplit(line):
     t = line.split(" ")
@@ -20,6 +34,9 @@ def batch_oracle(lines, outs):
         req.append(G.line_of("closure", gs))
         if cmd == "iseq":
             req.append(G.line_of("closure", qs))
+        # the guarded model: the same queries with a certificate check at every move of every run (`guards=ok` => every
+        # "member" verdict is sound, theorem C08_partial); its answer must be the implementation's
+        req.append(guard_line(l))
     rep = run_model(req)
     pos = 0
     for k, (l, o) in enumerate(zip(lines, outs)):
@@ -27,6 +44,23 @@ def batch_oracle(lines, outs):
         C = set(lst(fields(rep[pos]).get("elems", "-"))); pos += 1
         if cmd == "iseq":
             C2 = set(lst(fields(rep[pos]).get("elems", "-"))); pos += 1
+        gd = rep[pos]; pos += 1
+        fg = fields(gd)
+        if gd.startswith("!") or "guards" not in fg:
+            GUARD[l] = "guard=none"
+            if not o.startswith("!"):
+                res[k] = f"guarded model failed ({gd[:100]}) where the implementation answers {o[:100]}"
+                continue
+        else:
+            mb, nn = fg["memb"].split("/"), fg["non"].split("/")
+            GUARD[l] = ("guard=" + ("ok" if fg["guards"] == "ok" else "FAIL")
+                        + (":members-certified=" + ("all" if mb[0] == mb[1] else "some")) * (mb[0] != "0")
+                        + (":nonmembers-certified=" + ("all" if nn[0] == nn[1] else ("none" if nn[1] == "0" else "some"))) * (nn[0] != "0"))
+            ans = fg["ans"]
+            same = (sorted(lst(ans)) == sorted(lst(o))) if cmd in ("seldep", "space") and not o.startswith("!") and ans != "none" else ans == o
+            if not same and not o.startswith("!"):
+                res[k] = f"guarded model answers {ans[:100]}, the implementation {o[:100]}"
+                continue
         if C != O.closure_strs(gs):
             res[k] = "ORACLE-DISAGREEMENT on closure"; continue
         n = len(gs[0]) if gs else 0
@@ -102,7 +136,7 @@ def build_streams(rng, tier):
                 allq.append(G.line_of("isin", gs, q))
     h = impl_classify.handle
     def tag(l, o):
-        return l.split(" ")[0] + ":" + (o if o in ("T", "F") else ("err" if o.startswith("!") else "set"))
+        return l.split(" ")[0] + ":" + (o if o in ("T", "F") else ("err" if o.startswith("!") else "set")) + ":" + GUARD.get(l, "guard=?")
     kw = dict(batch_oracle=batch_oracle, tag=tag, shrink=shrink_classify)
     return [
         Stream("corpus", corpus_lines(PID), h, **kw),
@@ -118,7 +152,10 @@ RULE = ("generator collections as in C01 on n<=5 (thorough 6); query sets drawn 
 
 def main(tier):
     return standard_main(PID, tier, "other", THEOREMS, IMPORTS, build_streams, rule=RULE,
-        assumptions=["membership correctness of the reduction pipeline for ALL inputs is the research theorem; decided per input against the verified closure"])
+        assumptions=["SOUNDNESS of every 'member' verdict is proved for all inputs conditional on the executable guards of the guarded model (C08_partial; "
+                     "guards evaluated per query by `mguards`, see the branch histogram: guard=ok/FAIL); a guard failure is not a violation by itself; "
+                     "COMPLETENESS (a member is always reported; appended => not a member) is the research theorem: only certified per query by one of three checked certificates "
+                     "(separating string / identity / quadratic form q=0 for independent vertices: C08_nonmember_cert, histogram nonmembers-certified=...), otherwise decided per input against the verified closure (n<=6)"])
 
 def replay(path):
     r = json.load(open(path)); line = r.get("line")
